@@ -613,6 +613,20 @@ pub fn gen_value(rng: &mut Rng, cfg: &GenCfg, depth: usize) -> V {
                 let v = gen_value(rng, cfg, depth + 1);
                 props.push((name, v));
             }
+            // now and then a second property whose name differs from an existing one only in
+            // letter case (or is its Unicode look-alike): names are byte strings
+            if !props.is_empty() && rng.chance(1, 12) {
+                let base = props[rng.usize(0, props.len() - 1)].0.clone();
+                let variant: String = match rng.below(3) {
+                    0 => base.to_uppercase(),
+                    1 => base.to_lowercase(),
+                    _ => base.chars().map(|c| if c == 'k' { '\u{212a}' } else if c.is_ascii_lowercase() { c.to_ascii_uppercase() } else { c.to_ascii_lowercase() }).collect(),
+                };
+                if !variant.is_empty() && variant.len() <= 65535 && !props.iter().any(|p| p.0 == variant) {
+                    let v = gen_value(rng, cfg, depth + 1);
+                    props.push((variant, v));
+                }
+            }
             V::Obj(props)
         }
         _ => {
@@ -628,8 +642,34 @@ pub fn gen_value(rng: &mut Rng, cfg: &GenCfg, depth: usize) -> V {
                 let cheap = [V::Null, V::Undef, V::Bool(true), V::Num(0x3FF0000000000000)];
                 return V::Arr((0..n).map(|i| cheap[(i + n) % 4].clone()).collect());
             }
-            V::Arr((0..n).map(|_| gen_value(rng, cfg, depth + 1)).collect())
+            let mut elems: Vec<V> = (0..n).map(|_| gen_value(rng, cfg, depth + 1)).collect();
+            // now and then an element that is its neighbour again, but for one bit of one number
+            // inside (the sign of a zero, a NaN payload): equal under ==, not the same value
+            if !elems.is_empty() && rng.chance(1, 10) {
+                let at = rng.usize(0, elems.len() - 1);
+                let mut twin = elems[at].clone();
+                if !tweak_first_number(&mut twin, rng) {
+                    twin = V::Arr(vec![V::Num(0x8000_0000_0000_0000)]);
+                    elems.insert(at, V::Arr(vec![V::Num(0)]));
+                }
+                elems.insert(at + 1, twin);
+            }
+            V::Arr(elems)
         }
+    }
+}
+
+/// flip the sign bit (or, for a NaN, one payload bit) of the first number found; numbers that are
+/// not zero or NaN are first replaced by a zero in both... no: only the twin is changed
+fn tweak_first_number(v: &mut V, rng: &mut Rng) -> bool {
+    match v {
+        V::Num(b) => {
+            *b ^= if f64::from_bits(*b).is_nan() { 1 << rng.below(50) } else { 1 << 63 };
+            true
+        }
+        V::Arr(a) => a.iter_mut().any(|x| tweak_first_number(x, rng)),
+        V::Obj(p) => p.iter_mut().any(|x| tweak_first_number(&mut x.1, rng)),
+        _ => false,
     }
 }
 
